@@ -89,6 +89,16 @@ def make_case(rng, with_faults):
         shape["obj"] = "real:" + name
         allsec, code = _sections_of(elf)
         meta = [{"name": s, "raw": False, "data": s not in code} for s in allsec]
+    elif r0 < 0.13:
+        # a big object: tens of thousands of instructions, and a pattern that straddles a "round" instruction index
+        nbig = rng.choice([1100, 2100, 4200, 8300, 16500, 17000, 33000])
+        src, meta = gen.gen_big_source(rng, nbig)
+        elf = gen.assemble(src)
+        if elf is None:
+            return None
+        shape["obj"] = f"as:big:{nbig}"
+        shape["big"] = nbig
+        allsec, code = [".text"], [".text"]
     elif r0 < 0.17:
         src, meta = gen.gen_asm_source_32(rng)
         elf = gen.assemble(src, bits=32)
@@ -165,9 +175,24 @@ def make_case(rng, with_faults):
     shape["sections"] = sshape
     rc, text = gen.objdump_of(elf, sections)
     dec = gen.decode_listing(text) if rc == 0 else []
+    if shape.get("big") and rc == 0:
+        insn = [d for d in dec if d[1]]
+        bounds = [b for b in (256, 512, 1000, 1024, 2000, 2048, 4096, 5000, 8192, 10000, 16384, 20000, 32768) if b + 3 < len(insn)]
+        if bounds:
+            b = rng.choice(bounds[-3:])
+            items = []
+            for (_a, mn, ops) in insn[b - 2:b + 2]:
+                it = gen.instr_item(rng, mn, ops, substr_ok=False, with_ops_p=1.0)
+                items.append(it if it is not None else mn)
+            dec = []  # the rule is fixed below
+            big_doc = {"pattern": items}
+            if sections is not None:
+                big_doc = {"config": {"sections": list(sections)}, **big_doc}
     built = rules.build_found_rule(rng, dec, features={f for f in ("or", "not", "times", "cfg_flags", "cfg_style", "cfg_plugins", "capture") if rng.random() < 0.35},
                                    sections=sections, binary=True) if len([d for d in dec if d[1]]) >= 3 else None
-    if built is not None:
+    if shape.get("big") and rc == 0 and "big_doc" in locals():
+        doc = big_doc
+    elif built is not None:
         doc = built[0]
     else:
         doc = {"pattern": [rng.choice(["mov", "add", "nop", "push", "bad", "ret"])]}
